@@ -2080,9 +2080,14 @@ class CParser:
     def _parse_unified_string_literal(self) -> c_ast.Node:
         tok = self._expect("STRING_LITERAL")
         node = c_ast.Constant("string", tok.value, self._tok_coord(tok))
-        while self._peek_type() == "STRING_LITERAL":
-            tok2 = self._advance()
-            node.value = node.value[:-1] + tok2.value[1:]
+        if self._peek_type() == "STRING_LITERAL":
+            # Join the pieces once; appending to the growing value copies it
+            # for every continuation (quadratic for long runs of literals).
+            parts = [tok.value[:-1]]
+            while self._peek_type() == "STRING_LITERAL":
+                parts.append(self._advance().value[1:-1])
+            parts.append('"')
+            node.value = "".join(parts)
         return node
 
     # BNF: unified_wstring_literal : WSTRING_LITERAL+
@@ -2091,11 +2096,14 @@ class CParser:
         if tok.type not in _WSTR_LITERAL:
             self._parse_error("Invalid string literal", self._tok_coord(tok))
         node = c_ast.Constant("string", tok.value, self._tok_coord(tok))
-        while self._peek_type() in _WSTR_LITERAL:
-            tok2 = self._advance()
-            # Drop the encoding prefix (L, u, U or u8) and the opening quote
-            # of the continuation.
-            node.value = node.value.rstrip()[:-1] + tok2.value.split('"', 1)[1]
+        if self._peek_type() in _WSTR_LITERAL:
+            parts = [tok.value[:-1]]
+            while self._peek_type() in _WSTR_LITERAL:
+                # Drop the encoding prefix (L, u, U or u8) and both quotes of
+                # the continuation.
+                parts.append(self._advance().value.split('"', 1)[1][:-1])
+            parts.append('"')
+            node.value = "".join(parts)
         return node
 
     # ------------------------------------------------------------------
